@@ -169,6 +169,11 @@ func (x *Exec) execFrom(st *State, fr *Frame, b *ssa.BasicBlock, idx int) {
 				x.allocObligation(st, fr, v.Reserve, pos)
 			}
 			fr.regs[v] = x.mapMake(st, v.Type())
+			if fr.parent == nil && mapStaysLocal(v) {
+				// a map that is only read, written and returned by this function is out of reach of every callee
+				// (and of every goroutine): its contents survive a "modifies *" call like a stack local's
+				st.localRefs = append(st.localRefs, fr.regs[v].S)
+			}
 		case *ssa.MakeSlice:
 			fr.regs[v] = x.makeSlice(st, fr, v, pos)
 		case *ssa.MakeChan:
@@ -772,4 +777,41 @@ func (x *Exec) loopAddsKeys(fn *ssa.Function, h *ssa.BasicBlock, t types.Type) b
 		}
 	}
 	return false
+}
+
+// mapStaysLocal: every use of the freshly made map is a lookup, an update (as the map operand), a range, len(),
+// a comparison or a return - it is never stored, passed, captured, sent or converted, so nothing outside the
+// function can hold a reference to it while the function runs.
+func mapStaysLocal(m *ssa.MakeMap) bool {
+	refs := m.Referrers()
+	if refs == nil {
+		return false
+	}
+	for _, r := range *refs {
+		switch u := r.(type) {
+		case *ssa.DebugRef:
+		case *ssa.MapUpdate:
+			if u.Map != ssa.Value(m) || u.Key == ssa.Value(m) || u.Value == ssa.Value(m) {
+				return false
+			}
+		case *ssa.Lookup:
+			if u.X != ssa.Value(m) || u.Index == ssa.Value(m) {
+				return false
+			}
+		case *ssa.Range:
+		case *ssa.BinOp:
+		case *ssa.Return:
+		case *ssa.Call:
+			b, ok := u.Call.Value.(*ssa.Builtin)
+			if !ok || (b.Name() != "len" && b.Name() != "delete") {
+				return false
+			}
+			if b.Name() == "delete" && len(u.Call.Args) == 2 && u.Call.Args[1] == ssa.Value(m) {
+				return false
+			}
+		default:
+			return false
+		}
+	}
+	return true
 }
